@@ -3,7 +3,7 @@
    (C13_requests_allowed) and a successful call implies that the response was
    consistent with what was requested (C13_corruption_rejected). *)
 From Oras Require Import Base.Prelude Base.Regex Generated.GC20 Generated.GC13 Model.Reference
-  Model.Registry Model.RemoteClient Proofs.Reference.
+  Model.Registry Model.RemoteClient Model.RemoteSpec Proofs.Reference.
 Require Import Lia.
 
 Ltac break_in H :=
@@ -96,14 +96,7 @@ Section ClientFacts.
   Hypothesis Hmain : valid_repository main = true.
   Hypothesis Hother : valid_repository other = true.
 
-  (* the registry answers a POST with the location of an upload session *)
-  Definition loc_ok : Prop :=
-    forall s q, q_m q = POST ->
-      match r_loc (snd (exch s q)) with
-      | Some (rp, ep) => valid_repository rp = true /\ exists id, ep = ESession id
-      | None => True
-      end.
-  Hypothesis Hloc : loc_ok.
+  Hypothesis Hloc : loc_ok srv exch.
 
   Lemma resolve_ref_valid s rf : resolve_ref main s = Some rf -> valid_ref rf = true.
   Proof.
@@ -151,8 +144,9 @@ Section ClientFacts.
     intros Hd. unfold blob_push.
     pose proof (Hloc s (req POST main EUploads) eq_refl) as Hl.
     destruct (exch s _) as [s1 r1]. cbn [snd] in Hl.
-    destruct (r_status r1 =? 202).
-    - destruct (complete_push _ _ s1 r1 d c true) as [[s2 t2] res2] eqn:E.
+    destruct (r_status r1 =? 202) eqn:E202.
+    - apply N.eqb_eq in E202. specialize (Hl E202).
+      destruct (complete_push _ _ s1 r1 d c true) as [[s2 t2] res2] eqn:E.
       intro X; inv_pair X. apply all_allowed_cons; [now apply allowed_post|].
       eapply complete_push_allowed; eauto.
     - intro X; inv_pair X. auto using allowed_post with c13.
@@ -168,7 +162,8 @@ Section ClientFacts.
     assert (Aq : allowed q = true) by (now apply allowed_mount).
     destruct (exch s q) as [s1 r1]. cbn [snd] in Hl.
     destruct (r_status r1 =? 201); [intro X; inv_pair X; auto with c13|].
-    destruct (r_status r1 =? 202); [|intro X; inv_pair X; auto with c13].
+    destruct (r_status r1 =? 202) eqn:E202; [|intro X; inv_pair X; auto with c13].
+    apply N.eqb_eq in E202. specialize (Hl E202).
     destruct g as [c|].
     - destruct (complete_push _ _ s1 r1 d c false) as [[s2 t2] res2] eqn:E.
       intro X; inv_pair X. apply all_allowed_cons; auto. eapply complete_push_allowed; eauto.
@@ -322,15 +317,6 @@ Section ClientFacts.
       destruct (r_status r =? 404); intro X; inv_pair X; auto with c13.
   Qed.
 
-  (* what the caller must supply: valid digests in descriptors, a media type on
-     manifests; reference strings are arbitrary *)
-  Definition desc_ok (d : desc) : Prop := valid_digest (d_dg d) = true /\ d_mt d <> [].
-  Definition op_ok (o : op) : Prop :=
-    match o with
-    | OPush d _ | OFetch d | OExists d | ODelete d | OTag d _ | OPushRef d _ _ | OMount d _ | OPreds d => desc_ok d
-    | OResolve _ | OFetchRef _ | OBlobResolve _ | OBlobFetchRef _ => True
-    end.
-
   Notation run_op' := (run_op H parse_mt subject_of main other user_mts srv exch).
   Notation run_ops' := (run_ops H parse_mt subject_of main other user_mts srv exch).
 
@@ -384,13 +370,6 @@ Section ClientFacts.
 End ClientFacts.
 
 (* ---------- success implies a response consistent with the request ---------- *)
-
-(* the Docker-Content-Digest header is absent (or empty) or equals [e] *)
-Definition dig_consistent (r : response) (e : str) : Prop :=
-  nstr (r_dig r) = [] \/ (nstr (r_dig r) = e /\ valid_digest e = true).
-(* the Content-Length is unknown or equals [n] *)
-Definition len_consistent (r : response) (n : N) : Prop :=
-  r_clen r = None \/ r_clen r = Some n.
 
 Lemma verify_digest_spec r e : verify_digest r e = true <-> dig_consistent r e.
 Proof.
@@ -643,3 +622,67 @@ Section Consistency.
         split; [destruct t2; discriminate|]. rewrite El. discriminate.
   Qed.
 End Consistency.
+
+(* ---------- the same, in the words of the property: single-field corruptions ---------- *)
+(* [r0] is a response that Fetch of [d] would accept; corrupting one field so that it
+   contradicts the descriptor makes Fetch fail, whatever else the response says. *)
+Definition contradicts_fetch (parse_mt : str -> option str) (manifest : bool) (k : corruption) (r0 : response) (d : desc) : Prop :=
+  match k with
+  | KDigOther x => x <> [] /\ x <> d_dg d
+  | KDigGarbage => True
+  | KLenInc => r_clen r0 = Some (d_sz d)
+  | KStatus st => st <> 200
+  | KTypeOther => manifest = true /\ parse_mt (b "application/vnd.verif.other") <> Some (d_mt d)
+  | KTypeGarbage => manifest = true /\ parse_mt (b "garbage/;=") = None
+  | KTypeDrop => manifest = true /\ parse_mt [] = None
+  | KDigDrop | KLenDrop | KLocDrop => False      (* nothing the descriptor could contradict *)
+  end.
+
+Lemma garbage_invalid : valid_digest (b "garbage") = false.
+Proof. vm_compute. reflexivity. Qed.
+
+Lemma corrupt_fetch_inconsistent parse_mt manifest k r0 d :
+  contradicts_fetch parse_mt manifest k r0 d ->
+  let r := corrupt k r0 in
+  ~ (r_status r = 200 /\ (manifest = true -> parse_mt (nstr (r_ctype r)) = Some (d_mt d)) /\
+     len_consistent r (d_sz d) /\ dig_consistent r (d_dg d)).
+Proof.
+  intros Hc r (Hs & Hm & Hl & Hd). subst r. destruct r0 as [st ct cl dg loc ar sj rf body].
+  unfold dig_consistent, len_consistent in *.
+  destruct k; cbn [corrupt r_status r_ctype r_clen r_dig nstr contradicts_fetch] in *; try contradiction.
+  - destruct Hc as [N1 N2]. destruct Hd as [X|[X _]]; congruence.
+  - destruct Hd as [X|[X V]]; [discriminate|]. rewrite <- X, garbage_invalid in V. discriminate.
+  - subst cl. destruct Hl as [X|X]; [discriminate|]. injection X as X. lia.
+  - destruct Hc as [-> N1]. specialize (Hm eq_refl). congruence.
+  - destruct Hc as [-> N1]. specialize (Hm eq_refl). congruence.
+  - destruct Hc as [-> N1]. specialize (Hm eq_refl). congruence.
+Qed.
+
+Theorem blob_fetch_corrupted (srv : Type) repo (s : srv) k r0 d :
+  contradicts_fetch (fun _ => None) false k r0 d ->
+  exists e, snd (blob_fetch srv (fun s _ => (s, corrupt k r0)) repo s d) = RErr e.
+Proof.
+  intro Hc. destruct (blob_fetch srv _ repo s d) as [[s' t] res] eqn:E. cbn [snd].
+  destruct (blob_fetch_shape _ _ _ _ _ _ _ _ E) as [[c ->]|[e ->]]; [|eauto].
+  exfalso. pose proof E as E'. apply blob_fetch_consistent in E as (q & r & -> & Hs & _ & Hl & Hd).
+  unfold blob_fetch in E'. cbv beta iota zeta in E'. injection E' as _ _ <- _.
+  eapply corrupt_fetch_inconsistent; eauto. repeat split; eauto. discriminate.
+Qed.
+
+Theorem man_fetch_corrupted parse_mt main (srv : Type) (s : srv) k r0 d :
+  contradicts_fetch parse_mt true k r0 d ->
+  exists e, snd (man_fetch parse_mt main srv (fun s _ => (s, corrupt k r0)) s d) = RErr e.
+Proof.
+  intro Hc. destruct (man_fetch parse_mt main srv _ s d) as [[s' t] res] eqn:E. cbn [snd].
+  assert (Sh : (exists c, res = RBytes c) \/ (exists e, res = RErr e)).
+  { unfold man_fetch in E. injection E as _ _ <-.
+    destruct (r_status (corrupt k r0) =? 200).
+    - destruct (parse_mt _); eauto. destruct (negb _); eauto.
+      destruct (match r_clen (corrupt k r0) with Some n => negb (n =? d_sz d) | None => false end); eauto.
+      destruct (verify_digest _ _); eauto.
+    - destruct (r_status (corrupt k r0) =? 404); unfold status_err; eauto. }
+  destruct Sh as [[c ->]|[e ->]]; [|eauto].
+  exfalso. pose proof E as E'. apply man_fetch_consistent in E as (q & r & -> & Hs & _ & Hm & Hl & Hd).
+  unfold man_fetch in E'. cbv beta iota zeta in E'. injection E' as _ _ <- _.
+  eapply corrupt_fetch_inconsistent; eauto.
+Qed.
